@@ -519,7 +519,7 @@ func checkArgmin(pl *pool, ms *ssa.Function) {
 			}
 			cntOf := func(v ssa.Value) bool {
 				call, ok := stripConv(v).(*ssa.Call)
-				return ok && strings.HasSuffix(calleeOf(&call.Call).Name(), ".getStreamsCnt") && stripConv(call.Call.Args[0]) == stripConv(cand)
+				return ok && strings.HasSuffix(calleeOf(&call.Call).Name(), ".getStreamsCnt") && (stripConv(call.Call.Args[0]) == stripConv(cand) || sameSnapshotElem(call.Call.Args[0], cand))
 			}
 			isCur := func(v ssa.Value) bool { return cntPhi != nil && stripConv(v) == ssa.Value(cntPhi) }
 			cs := newCondSpace(ms, recOf(ltAtom("less", cntOf, isCur), ltAtom("greater", isCur, cntOf)), "less", "greater")
@@ -651,4 +651,26 @@ func sameSliceFamily(a, b ssa.Value) bool {
 		}
 	}
 	return false
+}
+
+// sameSnapshotElem: a and b are two reads p.scRefs[i] of the same index value of the picker's (immutable) snapshot.
+func sameSnapshotElem(a, b ssa.Value) bool {
+	elem := func(v ssa.Value) *ssa.IndexAddr {
+		u, ok := stripConv(v).(*ssa.UnOp)
+		if !ok || u.Op != token.MUL {
+			return nil
+		}
+		ia, ok := u.X.(*ssa.IndexAddr)
+		if !ok || !isLoadOf(ia.X, "gcpPicker.scRefs") {
+			return nil
+		}
+		return ia
+	}
+	ia, ib := elem(a), elem(b)
+	if ia == nil || ib == nil || ia.Index != ib.Index {
+		return false
+	}
+	_, ba, _ := loadedField(ia.X)
+	_, bb, _ := loadedField(ib.X)
+	return stripConv(ba) == stripConv(bb)
 }
